@@ -63,7 +63,7 @@ func realModel(inputs []string, ranks map[string]int, inits map[string]tensor.Te
 
 func genC01Real(tier string, seed int64) {
 	r := rand.New(rand.NewSource(seed + 77))
-	res := goOnlyResult{Stream: "C01_real_operators", Rule: "real registry, oracle = a fresh operator applied through the operator API, bit for bit: (a) LSTM/GRU/RNN single-node models whose outputs carry canonical, arbitrary, permuted-canonical names, omit trailing outputs or skip one with \"\" -- results must be bound by position (a refusal is accepted only when outputs are omitted); (b) two nodes of the same operator type with different attributes in one graph, both orders; (c) seeded random DAGs of 3..8 nodes over unary/binary operators with fan-out and fan-in, every intermediate declared as output", Violations: []string{}}
+	res := goOnlyResult{Stream: "C01_real_operators", Rule: "real registry, oracle = a fresh operator applied through the operator API, bit for bit: (a) LSTM/GRU/RNN single-node models whose outputs carry canonical, arbitrary, permuted-canonical names, omit trailing outputs or skip one with \"\" -- results must be bound by position (a refusal is accepted only when outputs are omitted); (b) two nodes of the same operator type with different attributes in one graph, both orders; (b') two Conv nodes whose dilated kernels have one shape, three Runs; every pair model is run twice; (d) chains of shape operators (Reshape with 0 / -1, Flatten, Squeeze, Unsqueeze, Transpose) whose intermediates are not graph outputs; (c) seeded random DAGs of 3..8 nodes over unary/binary operators with fan-out and fan-in, every intermediate declared as output", Violations: []string{}}
 	fxs := fixtures()
 	fail := func(format string, a ...interface{}) {
 		if len(res.Violations) < 20 {
@@ -220,6 +220,23 @@ func genC01Real(tier string, seed int64) {
 				fail("two %s nodes with different attributes: Run failed: %v", p.op, err)
 				continue
 			}
+			// ... and a second Run of the same Model gives the same (a node's Init may not change what another
+			// node of that type computes on a later Run)
+			feed2 := gonnx.Tensors{}
+			for i, t := range p.in() {
+				feed2[fmt.Sprintf("in%d", i)] = t
+			}
+			out2, err2, _ := runRec(m, feed2)
+			if err2 != nil {
+				fail("two %s nodes with different attributes: the second Run failed: %v", p.op, err2)
+				continue
+			}
+			for _, nm := range append(outsOf(0), outsOf(1)...) {
+				if out2[nm] == nil || snapT(out2[nm]) != snapT(out[nm]) {
+					fail("two %s nodes with different attributes (order %d): output %s of the second Run of the same Model differs from the first Run: %.200s vs %.200s", p.op, order, nm, snapT(out2[nm]), snapT(out[nm]))
+					break
+				}
+			}
 			for k := 0; k < 2; k++ {
 				canon := []string{"Y", "Y_h", "Y_c"}[:nOut]
 				want, werr := applyFresh(p.op, attrs[k], canon, p.in())
@@ -234,6 +251,98 @@ func genC01Real(tier string, seed int64) {
 					}
 				}
 			}
+		}
+	}
+	// (b') two Conv nodes whose DILATED kernels have one shape (3x3 dilated by 2 = 5x5) but different taps,
+	// both orders, two Runs
+	for order := 0; order < 2; order++ {
+		res.N++
+		x, k3, k5 := fxF32(1, 2, 7, 7), fxPos32(2, 2, 3, 3), fxF32(2, 2, 5, 5)
+		nodes := []realNode{{op: "Conv", attrs: []*onnx.AttributeProto{ais("dilations", 2, 2)}, in: []string{"x", "k3"}, out: []string{"y0"}},
+			{op: "Conv", attrs: []*onnx.AttributeProto{ais("dilations", 1, 1)}, in: []string{"x", "k5"}, out: []string{"y1"}}}
+		if order == 1 {
+			nodes[0], nodes[1] = nodes[1], nodes[0]
+		}
+		b := realModel([]string{"x"}, map[string]int{"x": 4}, map[string]tensor.Tensor{"k3": k3, "k5": k5}, nodes, []string{"y0", "y1"})
+		m, err := gonnx.NewModelFromBytes(b)
+		if err != nil {
+			fail("two-Conv model does not load: %v", err)
+			continue
+		}
+		w0, e0 := applyFresh("Conv", []*onnx.AttributeProto{ais("dilations", 2, 2)}, nil, []tensor.Tensor{x.Clone().(tensor.Tensor), k3.Clone().(tensor.Tensor)})
+		w1, e1 := applyFresh("Conv", []*onnx.AttributeProto{ais("dilations", 1, 1)}, nil, []tensor.Tensor{x.Clone().(tensor.Tensor), k5.Clone().(tensor.Tensor)})
+		if e0 != nil || e1 != nil {
+			fail("Conv oracle failed: %v %v", e0, e1)
+			continue
+		}
+		for run := 0; run < 3; run++ {
+			out, err, _ := runRec(m, gonnx.Tensors{"x": x.Clone().(tensor.Tensor)})
+			if err != nil {
+				fail("two Conv nodes (3x3 dilated by 2, 5x5), Run %d failed: %v", run, err)
+				break
+			}
+			if snapT(out["y0"]) != snapT(w0[0]) || snapT(out["y1"]) != snapT(w1[0]) {
+				fail("two Conv nodes whose dilated kernels have one shape (order %d), Run %d: results differ from fresh operators: %.150s / %.150s want %.150s / %.150s", order, run, snapT(out["y0"]), snapT(out["y1"]), snapT(w0[0]), snapT(w1[0]))
+				break
+			}
+		}
+	}
+	// (d) chains of shape operators whose intermediates are NOT graph outputs, the consumer's shape using
+	// 0 ("copy this extent from MY input") and -1
+	i64v := func(v ...int64) tensor.Tensor { return tensor.New(tensor.WithShape(len(v)), tensor.WithBacking(v)) }
+	type chainNode struct {
+		op    string
+		attrs []*onnx.AttributeProto
+		extra tensor.Tensor // second input (shape / axes) or nil
+	}
+	chains := [][]chainNode{
+		{{"Reshape", nil, i64v(4, 6)}, {"Reshape", nil, i64v(0, -1, 2)}},
+		{{"Flatten", []*onnx.AttributeProto{ai("axis", 1)}, nil}, {"Reshape", nil, i64v(-1, 0)}},
+		{{"Reshape", nil, i64v(24)}, {"Reshape", nil, i64v(0)}},
+		{{"Unsqueeze", nil, i64v(0)}, {"Reshape", nil, i64v(0, 0, -1)}},
+		{{"Reshape", nil, i64v(1, 24)}, {"Squeeze", nil, i64v(0)}, {"Reshape", nil, i64v(0, 1)}},
+		{{"Transpose", []*onnx.AttributeProto{ais("perm", 2, 0, 1)}, nil}, {"Reshape", nil, i64v(0, -1)}, {"Reshape", nil, i64v(-1, 0)}},
+		{{"Flatten", []*onnx.AttributeProto{ai("axis", 2)}, nil}, {"Reshape", nil, i64v(0, 2, -1)}, {"Flatten", []*onnx.AttributeProto{ai("axis", 0)}, nil}},
+	}
+	for ci, ch := range chains {
+		res.N++
+		x := fxF32(2, 3, 4)
+		cur := []tensor.Tensor{x.Clone().(tensor.Tensor)}
+		inits := map[string]tensor.Tensor{}
+		var nodes []realNode
+		prev := "x"
+		okOracle := true
+		for k, cn := range ch {
+			ins := []tensor.Tensor{cur[0]}
+			in := []string{prev}
+			if cn.extra != nil {
+				nm := fmt.Sprintf("s%d", k)
+				inits[nm] = cn.extra
+				in = append(in, nm)
+				ins = append(ins, cn.extra.Clone().(tensor.Tensor))
+			}
+			o, err := applyFresh(cn.op, cn.attrs, nil, ins)
+			if err != nil {
+				okOracle = false
+				break
+			}
+			cur = o
+			prev = fmt.Sprintf("t%d", k)
+			nodes = append(nodes, realNode{op: cn.op, attrs: cn.attrs, in: in, out: []string{prev}})
+		}
+		if !okOracle {
+			fail("shape chain %d: the oracle (operators applied one by one) failed", ci)
+			continue
+		}
+		b := realModel([]string{"x"}, map[string]int{"x": 3}, inits, nodes, []string{prev})
+		m, err := gonnx.NewModelFromBytes(b)
+		if err != nil {
+			fail("shape chain %d does not load: %v", ci, err)
+			continue
+		}
+		out, err, _ := runRec(m, gonnx.Tensors{"x": x.Clone().(tensor.Tensor)})
+		if err != nil || out[prev] == nil || snapT(out[prev]) != snapT(cur[0]) {
+			fail("chain of shape operators %s with undeclared intermediates: Run gives %v / %.200s, the operators applied one by one give %.200s", describe(nodes), err, snapT(out[prev]), snapT(cur[0]))
 		}
 	}
 	// (c) random DAGs over unary/binary operators
